@@ -10,10 +10,12 @@ import (
 // Registry maps property ids to their checks.
 var Registry = map[string]func(*core.Ctx){
 	"C01": C01,
+	"C02": C02,
 	"C03": C03,
 	"C04": C04,
 	"C05": C05,
 	"C06": C06,
+	"C07": C07,
 	"C08": C08,
 	"C09": C09,
 	"C10": C10,
@@ -28,3 +30,35 @@ var Registry = map[string]func(*core.Ctx){
 }
 
 func minutes(n int) time.Duration { return time.Duration(n) * time.Minute }
+
+func firstLines(s string, n int) string {
+	lines := splitLines(s)
+	if len(lines) > n {
+		lines = append(lines[:n], "...")
+	}
+	out := ""
+	for i, l := range lines {
+		if i > 0 {
+			out += "\n"
+		}
+		out += l
+	}
+	return out
+}
+
+func splitLines(s string) []string {
+	var out []string
+	cur := ""
+	for _, r := range s {
+		if r == '\n' {
+			out = append(out, cur)
+			cur = ""
+			continue
+		}
+		cur += string(r)
+	}
+	if cur != "" {
+		out = append(out, cur)
+	}
+	return out
+}
